@@ -314,6 +314,12 @@ def gen(tier, rng):
                     j = rng.randrange(nd)
                     v_ne[j] = v_ne[j] + rng.choice([1, 3, 256, 1 << 32])
                     out.append("ext_eq q %s ; %s %s" % (k, lstw(i1, v_ne), lstw(i2, w_eq)))
+            # mixed signedness: -1 on the signed side against the maximum of the unsigned side -- equal after the usual
+            # arithmetic conversions, different as mathematical values (operator== uses cmp_not_equal)
+            if BITS[i1][1] != BITS[i2][1] and nd > 0 and nd2 > 0:
+                s1 = [-1] * nd if BITS[i1][1] else [imax(i1)] * nd
+                s2 = [-1] * nd2 if BITS[i2][1] else [imax(i2)] * nd2
+                out.append("ext_eq q %s ; %s %s" % (k, lstw(i1, s1), lstw(i2, s2)))
             v = sorted(vals)[0]
             kinds = ["LL", "RR", "MD", "SL", "SR", "LS", "RS"] + (["LR", "RL"] if len(p1) <= 1 else [])
             for kind in kinds:
